@@ -160,7 +160,7 @@ func c11Run(ops []string, seed int) (lines []string, viols []Violation, info map
 				viol("C11/transfer-failed", "data did not arrive over a connection that was handed out as working")
 			}
 			add("sess.transfer")
-		case "close-client", "close-server", "relay-failure", "relay-outage", "del-fails":
+		case "close-client", "close-server", "relay-failure", "relay-outage", "del-fails", "junk-handshake":
 			switch op {
 			case "close-client":
 				if !closeTimed(cli.Mailbox) {
@@ -210,6 +210,22 @@ func c11Run(ops []string, seed int) (lines []string, viols []Violation, info map
 				}
 				add("sess.closed c")
 				add("sess.closed s")
+			case "junk-handshake":
+				// both sides close; an unparsable packet then waits in the mailboxes of the next
+				// rendezvous, so that the first reconnect attempt fails in the GBN handshake with an
+				// error. That attempt may fail; the session must get a working connection afterwards
+				if !closeTimed(cli.Mailbox) || !closeTimed(srv.Mailbox) {
+					viol("C11/close-does-not-return", "Close had not returned after 20 s")
+					abandon = true
+					return
+				}
+				add("sess.closed c")
+				add("sess.closed s")
+				if nsid, err := st.SrvData.SID(); err == nil {
+					a, b := mailbox.GetSID(nsid, true), mailbox.GetSID(nsid, false)
+					relay.Inject(sidKey(a[:]), []byte{0xff, 0x01, 0x02})
+					relay.Inject(sidKey(b[:]), []byte{0xff, 0x01, 0x02})
+				}
 			case "relay-outage":
 				// the relay is unreachable while both sides give up their connection: every stream
 				// operation, closing the streams included, fails; then it comes back
@@ -373,7 +389,7 @@ func waitDone(c net.Conn, d time.Duration) {
 func TestC11(t *testing.T) {
 	r := NewRecorder(t, "C11")
 	defer r.Close(t)
-	alphabet := []string{"transfer", "close-client", "close-server", "relay-failure", "early-accept", "early-dial", "relay-outage", "del-fails"}
+	alphabet := []string{"transfer", "close-client", "close-server", "relay-failure", "early-accept", "early-dial", "relay-outage", "del-fails", "junk-handshake"}
 	var seqs [][]string
 	// all sequences of length 1 and 2, plus seeded longer ones
 	for _, a := range alphabet {
